@@ -113,7 +113,7 @@ def describe_cond(c):
             s = '%s has %s' % (base, fl)
             return s if pred == 'eq' else 'not(%s)' % s
         ra, rb = sym.render(a), sym.render(b)
-        if ra.endswith('->type') and sym.is_const(b):
+        if (ra.endswith('->type') or ra.endswith('.type')) and sym.is_const(b):
             rb = TYPE_NAMES.get(b[1], rb)
         if sym.is_const(b) and b[1] == 0 and pred == 'ne':
             return ra
